@@ -44,7 +44,14 @@ RULE = (
     "each — so that cold MDQ entities are met first by every kind of lookup; every answer is compared.  non-trivial = distinct (tag, kinds of "
     "sources, outcome flags, multiset of answer shapes)")
 TRUSTED = ["xmlsec1 stand-in (harness/standin/xmlsec1.py)", "metadata renderer and answer abstraction in harness/c11.py",
-           "stub http / requests objects (status_code, content)"]
+           "stub http / requests objects (status_code, content)",
+           "translator v2 (harness/py2coq2.py + Base/Py2.v; value semantics, no aliasing) for the functions re-translated on "
+           "every run into coq/gen/C11Src2.v and proved equal to the model in C11/Source2.v: "
+           "InMemoryMetaData.do_entity_descriptor, MetaData.certs.extract_certs (nested function), "
+           "MetaDataMDX._is_metadata_fresh, MetaDataMDX.__getitem__, MetadataStore.__getitem__, MetadataStore.reload, "
+           "InMemoryMetaData.signed; their external calls (time_util.valid/before, mdie.to_dict, repack_cert, "
+           "_fetch_metadata, imp, the entity filter) are hypotheses of the theorems, and the pyval encodings of "
+           "C11/Source2.v (entity dict, role descriptor dict, source objects) are trusted to describe the Python values"]
 ASSUMPTIONS = [
     "a document's validity (validUntil) is judged when it is loaded / fetched, as the code does; static sources are not "
     "re-examined when time passes",
@@ -521,6 +528,59 @@ class _Run:
             return [["F", True]]
         except Exception:
             return [["F", False]]
+
+
+# ------------------------------------------------------------------------------------ source tie (translator v2)
+# Functions of src/saml2/mdstore.py that are re-translated from the CURRENT source text on every run into
+# coq/gen/C11Src2.v; coq/theories/C11/Source2.v proves each of them equal to the model function it mirrors
+# (for all inputs of the model's domain), Property.v re-states the theorems as c11_source2_*.
+def source2_items():
+    env.check_repo_import()
+    from saml2 import samlp
+
+    path = os.path.join(env.SRC, "saml2", "mdstore.py")
+    one = lambda f: (lambda a: "(%s %s)" % (f, a[0]))
+    return [
+        # anchor 1: validUntil, duplicate entityID, protocol support filter
+        (path, "InMemoryMetaData.do_entity_descriptor", {
+            "name": "src2_do_entity_descriptor", "params": ["self", "entity_descr"],
+            "extra_params": [("valid", "pyval -> pyval"), ("to_dict", "pyval -> pyval"), ("filter_", "pyval -> pyval")],
+            "calls": {"valid": one("valid"), "to_dict": one("to_dict"), "metadata_modules": lambda a: "PNone",
+                      "self.filter": one("filter_")},
+            "globals": {"samlp.NAMESPACE": "(PStr %s)" % cq(samlp.NAMESPACE)},
+            "ignore_calls": ["print", "logger.error"], "attr_errors": True, "returns_state": ["self"]}),
+        # anchor 3: KeyDescriptor use filter (the nested function of MetaData.certs; `use` is its free variable)
+        (path, "MetaData.certs.extract_certs", {
+            "name": "src2_extract_certs", "params": ["srvs"],
+            "extra_params": [("repack_cert", "pyval -> pyval"), ("v_use", "pyval")],
+            "calls": {"repack_cert": one("repack_cert")}, "globals": {"use": "v_use"}}),
+        # anchor 5: freshness
+        (path, "MetaDataMDX._is_metadata_fresh", {
+            "name": "src2_is_fresh", "params": ["self", "item"],
+            "extra_params": [("before", "pyval -> pyval")], "calls": {"before": one("before")}}),
+        (path, "MetaDataMDX.__getitem__", {
+            "name": "src2_mdx_getitem", "params": ["self", "item"],
+            "extra_params": [("fetch", "pyval -> pyval -> pyval"), ("fresh", "pyval -> pyval -> pyval")],
+            "calls": {"self._fetch_metadata": lambda a: "(fetch v_self %s)" % a[0],
+                      "self._is_metadata_fresh": lambda a: "(fresh v_self %s)" % a[0]},
+            "ignore_calls": ["logger.info"], "returns_state": ["self"]}),
+        # anchor 2 (store level): the first configured source that has the entity answers
+        (path, "MetadataStore.__getitem__", {"name": "src2_store_getitem", "params": ["self", "item"]}),
+        # anchor 6: rollback on failure
+        (path, "MetadataStore.reload", {
+            "name": "src2_reload", "params": ["self", "spec"], "extra_params": [("imp", "pyval -> pyval -> pyval")],
+            "calls": {"self.imp": lambda a: "(imp v_self %s)" % a[0]}, "returns_state": ["self"]}),
+        # anchor 4: is the parsed document signed
+        (path, "InMemoryMetaData.signed", {"name": "src2_signed", "params": ["self"]}),
+    ]
+
+
+def regenerate_tables(ctx):
+    from harness import common, py2coq2
+
+    info = py2coq2.regenerate(os.path.join(common.GEN, "C11Src2.v"), source2_items())
+    return {"file": "coq/gen/C11Src2.v", "changed": info["changed"], "obligations": info["obligations"],
+            "discharged": info["discharged"], "untranslatable": info["untranslatable"], "source2": info}
 
 
 CLOCK = None
